@@ -113,11 +113,13 @@ def memory_files(ctx):
     ]
 
 
-def stage_memory(ctx):
+def stage_memory(ctx, only=None):
     d = os.path.join(ctx.rundir, "mem")
     os.makedirs(d, exist_ok=True)
     bad, rows = [], []
     for name, kind, dim, content, expect in memory_files(ctx):
+        if only is not None and name != only:
+            continue
         path = os.path.join(d, name + ".bin")
         with open(path, "wb") as f:
             f.write(content)
@@ -144,12 +146,14 @@ def stage_memory(ctx):
             what = ("loader-memory: %s (%d-byte file): exit=%d result=%r peak RSS %d KiB > limit %d KiB or crash; stderr: %s"
                     % (name, len(content), rc, line, hwm, limit_kb, " | ".join(err.strip().split("\n")[:2])[:300]))
             bad.append(what)
-            rep = dict(kind="impl-counterexample", domain="embed", **{"class": "loader-memory"},
+            rep = dict(kind="impl-counterexample", domain="embed", memory_file=name, **{"class": "loader-memory"},
                        tool=" ".join(cmd[2:-1]), file_hex=content.hex() if len(content) <= 4096 else "<%d bytes, generated by lib/props/c19.py memory_files()>" % len(content),
                        ops=[("loadwv " if kind == "wv" else "loadce %d " % dim) + (content.hex() or "-")] if len(content) <= 4096 else [],
                        expected=expect, result=line, exit_status=rc, peak_rss_kib=hwm, limit_kib=limit_kb, stderr=err[:1500])
             ctx.hit("loader-memory", what, rep)
     ctx.cov.setdefault("memory", rows)
+    if only is not None:
+        return rows, bad
     ctx.oblige("monitor:memory:capped-child-loads(RLIMIT_AS=1GiB, peak RSS <= 64MiB + 64*size)", "monitor", not bad,
                "\n".join(bad) if bad else "; ".join(rows)[:3500])
 
@@ -187,3 +191,38 @@ def run(ctx):
     ctx.hits.sort(key=lambda h: rank.get(h["cls"], 2))
     missing = [k for k in need if d.get(k, 0) == 0]
     ctx.oblige("coverage:generators-reach-every-path", "coverage", not missing, "not reached: %s" % missing if missing else "all %d path counters > 0" % len(need))
+
+
+def replay(ctx, rep):
+    """./check C19 --replay <file>: re-executes the recorded input on the current tree (real code and model)."""
+    import json
+    scratch = os.path.join(ctx.rundir, "scratch")
+    os.makedirs(scratch, exist_ok=True)
+    os.environ["WTFVERIF_SCRATCH"] = scratch
+    if not ctx.stage_build():
+        print("build failed")
+        return 1
+    items = [rep["failing"]] if "failing" in rep else []
+    items += [o["detail"] for o in rep.get("broken_obligations", []) if isinstance(o.get("detail"), dict) and "ops" in o["detail"]]
+    rc = 0
+    if not items:
+        print(json.dumps(rep, indent=1)[:4000])
+    for it in items:
+        if it.get("memory_file"):
+            ctx.seed, ctx.tier = rep.get("seed", ctx.seed), rep.get("tier", ctx.tier)
+            rows, bad = stage_memory(ctx, only=it["memory_file"])
+            print("memory-capped child load:", "; ".join(rows))
+            for b in bad:
+                print("STILL FAILING:", b)
+            rc = rc or (1 if bad else 0)
+        if it.get("ops"):
+            mm, il, ml, hits = core.run_single_case(ctx, "replay", it.get("domain", "embed"), it["ops"])
+            print("ops:")
+            for l in it["ops"]:
+                print("   ", l[:400])
+            print("impl :", il)
+            print("model:", ml)
+            print("monitor hits:", json.dumps(hits)[:2000])
+            if mm or hits:
+                rc = 1
+    return rc
